@@ -16,6 +16,8 @@ package goaterr
 //@   modifies E:error
 //@   ensures len(result) >= len(errs) && forall(k, old(len(errs)) <= k && k < len(result) ==> result[k] != nil)
 //@   ensures forall(j, 0 <= j && j < len(newerrs) ==> (old(newerrs[j]) != nil ==> len(result) > old(len(errs))))
+//@   ensures forall(k, 0 <= k && k < old(len(errs)) ==> result[k] == old(errs[k]))
+//@   loop 1 invariant forall(k, 0 <= k && k < old(len(errs)) ==> errs[k] == old(errs[k]))
 //@   loop 1 invariant -1 <= $i && $i < len(newerrs) && len(errs) >= old(len(errs)) && forall(k, old(len(errs)) <= k && k < len(errs) ==> errs[k] != nil)
 //@   loop 1 invariant forall(j, 0 <= j && j <= $i ==> (old(newerrs[j]) != nil ==> len(errs) > old(len(errs))))
 //@   loop 1 invariant (arr(errs) != arr(newerrs) || len(newerrs) == 0) && (arr(newerrs) == 0 || allocated(arr(newerrs))) && forall(j, 0 <= j && j < len(newerrs) ==> newerrs[j] == old(newerrs[j]))
